@@ -14,7 +14,11 @@ Init == /\ vSeen = FALSE
            \/ vKind = "tags" /\ vN \in 0..1 /\ vBody \in UNION { [1..m -> TagAlpha] : m \in 0..TagLen }
 Next == ~vSeen /\ vSeen' = TRUE /\ UNCHANGED <<vKind, vN, vBody>>
 Spec == Init /\ [][Next]_<<vKind, vN, vBody, vSeen>>
-TestLine == IF vKind = "row" THEN [j \in 1..vN |-> 32] \o <<PIPE>> \o vBody \o <<LF>> ELSE [j \in 1..vN |-> 32] \o vBody \o <<LF>>
+\* indentation: vN blanks; for rows every third case uses tabs, every third a tab first and spaces after (a tab is ONE blank)
+IndentOf == IF vKind = "row" /\ (vN + Len(vBody)) % 3 = 1 THEN [j \in 1..vN |-> 9]
+            ELSE IF vKind = "row" /\ (vN + Len(vBody)) % 3 = 2 /\ vN > 0 THEN <<9>> \o [j \in 1..(vN - 1) |-> 32]
+            ELSE [j \in 1..vN |-> 32]
+TestLine == IF vKind = "row" THEN IndentOf \o <<PIPE>> \o vBody \o <<LF>> ELSE IndentOf \o vBody \o <<LF>>
 Res == IF vKind = "row" THEN MdRow(TestLine) ELSE MdTags(TestLine)
 \* "a table row is recognised only when indented two to five blanks and not a GFM separator row"
 Inv_RowWindow == (vSeen /\ vKind = "row") =>
